@@ -361,7 +361,9 @@ class SafeLearner(Learner):
                 pred = list(pred.values())[0]
 
             if self._pred_format[:2] == 'PM':
-                A, P = list(map(list, zip(*map(self._rng.choicew,actions, zip(*pred)))))
+                #an un-hinted pmf is given column by column (one column per action) while {'pmf':...} holds one pmf per row
+                pmfs = pred if self._pred_format.endswith('*') else zip(*pred)
+                A, P = list(map(list, zip(*map(self._rng.choicew,actions, pmfs))))
 
             if self._pred_format[:2] == 'AX':
                 A = pred
